@@ -301,5 +301,28 @@ def replay(ctx, layout, kv, iv):
     return bool(bad), det
 
 
+def native(ctx):
+    """supplement when the symbolic part is inconclusive: seeded random binding indices / kinds on every template, real build, same conditions"""
+    n = 6 if ctx.tier == 'quick' else 60
+    done = False
+    for lname, layout in LAYOUTS.items():
+        for k in range(n):
+            pool = [0, 1, 2, 3, 5, 7, 31, 255, 65535, 2 ** 31, 2 ** 32 - 1] + [ctx.rng.randrange(2 ** 32) for _ in range(4)]
+            iv, used = {}, {}
+            for g, nm in layout:
+                while True:
+                    v = ctx.rng.choice(pool)
+                    if v not in used.setdefault(g, set()):
+                        used[g].add(v)
+                        iv[nm] = v
+                        break
+            kv = {nm: ctx.rng.choice(ALL_KINDS) for _, nm in layout}
+            rep, det = replay(ctx, layout, kv, iv)
+            if rep and not done:
+                done = True
+                ctx.report('C04/native', f'template {lname}, bindings {iv}, kinds {kv}: {det.get("failed") or det.get("real")}', det, True, det)
+            elif not rep:
+                ctx.replayed_ok += 1
+
 if __name__ == '__main__':
-    sys.exit(main('C04', run))
+    sys.exit(main('C04', run, native))
